@@ -5,6 +5,7 @@ package symex
 
 import (
 	"fmt"
+	"go/token"
 	"go/types"
 	"math"
 	"math/big"
@@ -22,6 +23,13 @@ type externalFn func(fr *frame, args []value) value
 var stubs = map[string]externalFn{}
 
 // time package functions that may be executed from their SSA bodies.
+// harnessRedirects: environment-facing callees that a harness package may replace by a
+// function of its own (used only when the harness package defines it; reported as a stub).
+var harnessRedirects = map[string]string{
+	"os.Open": "verifStubOsOpen",
+	"github.com/atlassian/escalator/pkg/controller.UnmarshalNodeGroupOptions": "verifStubUnmarshalNodeGroupOptions",
+}
+
 var timeAllowed = map[string]bool{
 	"(time.Duration).Seconds":      true,
 	"(time.Duration).Minutes":      true,
@@ -408,9 +416,9 @@ func init() {
 		"(time.Time).UnixNano": func(fr *frame, a []value) value {
 			return fr.i.mkInt(Sub(fr.i.timeNs(a[0]), BigC(unixOffsetNs)), types.Int64)
 		},
-		"(time.Time).UTC":   func(fr *frame, a []value) value { return a[0] },
-		"(time.Time).Local": func(fr *frame, a []value) value { return a[0] },
-		"(time.Time).Round": func(fr *frame, a []value) value { return a[0] },
+		"(time.Time).UTC":    func(fr *frame, a []value) value { return a[0] },
+		"(time.Time).Local":  func(fr *frame, a []value) value { return a[0] },
+		"(time.Time).Round":  func(fr *frame, a []value) value { return a[0] },
 		"(time.Time).String": func(fr *frame, a []value) value { return "‹time›" },
 		"(time.Duration).String": func(fr *frame, a []value) value {
 			if d, ok := a[0].(int64); ok {
@@ -454,10 +462,10 @@ func init() {
 			}
 			return false
 		},
-		"math.Inf":          bridge(math.Inf),
-		"math.Float64bits":  bridge(math.Float64bits),
-		"math.Pow":          bridge(math.Pow),
-		"math.Sqrt":         bridge(math.Sqrt),
+		"math.Inf":         bridge(math.Inf),
+		"math.Float64bits": bridge(math.Float64bits),
+		"math.Pow":         bridge(math.Pow),
+		"math.Sqrt":        bridge(math.Sqrt),
 
 		// --- fmt / errors
 		"fmt.Sprintf": func(fr *frame, a []value) value {
@@ -543,29 +551,29 @@ func init() {
 		"strconv.FormatBool": bridge(strconv.FormatBool),
 
 		// --- strings (native on concrete values)
-		"strings.Split":      bridge(strings.Split),
-		"strings.SplitN":     bridge(strings.SplitN),
-		"strings.Join":       bridge(strings.Join),
-		"strings.Contains":   bridge(strings.Contains),
-		"strings.HasPrefix":  bridge(strings.HasPrefix),
-		"strings.HasSuffix":  bridge(strings.HasSuffix),
-		"strings.Index":      bridge(strings.Index),
-		"strings.LastIndex":  bridge(strings.LastIndex),
-		"strings.IndexByte":  bridge(strings.IndexByte),
-		"strings.TrimSpace":  bridge(strings.TrimSpace),
-		"strings.TrimPrefix": bridge(strings.TrimPrefix),
-		"strings.TrimSuffix": bridge(strings.TrimSuffix),
-		"strings.Trim":       bridge(strings.Trim),
-		"strings.ToLower":    bridge(strings.ToLower),
-		"strings.ToUpper":    bridge(strings.ToUpper),
-		"strings.Fields":     bridge(strings.Fields),
-		"strings.EqualFold":  bridge(strings.EqualFold),
-		"strings.Repeat":     bridge(strings.Repeat),
-		"strings.Replace":    bridge(strings.Replace),
-		"strings.ReplaceAll": bridge(strings.ReplaceAll),
-		"strings.Count":      bridge(strings.Count),
-		"strings.Cut": bridge(func(s, sep string) (string, string, bool) { return strings.Cut(s, sep) }),
-		"strings.Compare":    bridge(strings.Compare),
+		"strings.Split":                  bridge(strings.Split),
+		"strings.SplitN":                 bridge(strings.SplitN),
+		"strings.Join":                   bridge(strings.Join),
+		"strings.Contains":               bridge(strings.Contains),
+		"strings.HasPrefix":              bridge(strings.HasPrefix),
+		"strings.HasSuffix":              bridge(strings.HasSuffix),
+		"strings.Index":                  bridge(strings.Index),
+		"strings.LastIndex":              bridge(strings.LastIndex),
+		"strings.IndexByte":              bridge(strings.IndexByte),
+		"strings.TrimSpace":              bridge(strings.TrimSpace),
+		"strings.TrimPrefix":             bridge(strings.TrimPrefix),
+		"strings.TrimSuffix":             bridge(strings.TrimSuffix),
+		"strings.Trim":                   bridge(strings.Trim),
+		"strings.ToLower":                bridge(strings.ToLower),
+		"strings.ToUpper":                bridge(strings.ToUpper),
+		"strings.Fields":                 bridge(strings.Fields),
+		"strings.EqualFold":              bridge(strings.EqualFold),
+		"strings.Repeat":                 bridge(strings.Repeat),
+		"strings.Replace":                bridge(strings.Replace),
+		"strings.ReplaceAll":             bridge(strings.ReplaceAll),
+		"strings.Count":                  bridge(strings.Count),
+		"strings.Cut":                    bridge(func(s, sep string) (string, string, bool) { return strings.Cut(s, sep) }),
+		"strings.Compare":                bridge(strings.Compare),
 		"unicode/utf8.RuneCountInString": bridge(utf8.RuneCountInString),
 
 		// --- sync / runtime
@@ -809,3 +817,23 @@ func (i *interpreter) intrinsic(fn *ssa.Function) intrinsicFn {
 	}
 	return intrinsics[fn.Name()]
 }
+
+func intrinsicCatchFatal(i *interpreter, a []value) (res value) {
+	// runs the closure; a process exit (log.Fatal*, os.Exit) inside it ends the closure
+	// only, without running deferred calls, and is reported to the harness
+	defer func() {
+		if r := recover(); r != nil {
+			if _, ok := r.(exitPanic); ok {
+				res = true
+				return
+			}
+			panic(r)
+		}
+	}()
+	saved := i.cur
+	call(i, saved, token.NoPos, a[0], nil)
+	i.cur = saved
+	return false
+}
+
+func init() { intrinsics["verifCatchFatal"] = intrinsicCatchFatal }
